@@ -129,4 +129,26 @@ func TestReplay(t *testing.T) {
 	t.Logf("replay did not reproduce on this tree")
 }
 
-func replayOther(t *testing.T, v *Violation) { t.Skipf("engine %s replay not built yet", v.Engine) }
+func replayOther(t *testing.T, v *Violation) {
+	switch v.Engine {
+	case "E1":
+		if nv := replayE1(v); nv != nil {
+			writeReplay(nv)
+			t.Fatalf("REPRODUCED: %s", nv.Short())
+		}
+		t.Logf("replay did not reproduce on this tree")
+	default:
+		t.Skipf("engine %s has no replay", v.Engine)
+	}
+}
+
+func runE1(t *testing.T, focus string) {
+	f := e1Focuses[focus]
+	rapid.Check(t, func(rt *rapid.T) { runE1Case(rt, f) })
+}
+
+func TestC01(t *testing.T)   { runE1(t, "C01") }
+func TestC09(t *testing.T)   { runE1(t, "C09") }
+func TestC06E1(t *testing.T) { runE1(t, "C06") }
+func TestC08E1(t *testing.T) { runE1(t, "C08") }
+
